@@ -115,7 +115,9 @@ class cpr {
                 const backend_params &bprm = backend_params()
            ) : prm(prm), n(backend::rows(K))
         {
-            init(std::make_shared<build_matrix>(K), bprm,
+            auto A = std::make_shared<build_matrix>(K);
+            backend::sort_rows(*A);
+            init(A, bprm,
                     std::integral_constant<bool, math::static_rows<value_type>::value == 1>());
         }
 
